@@ -175,7 +175,7 @@ def model_check(ev, tier, work, vd):
     cfg2 = os.path.join(work, "SIM_UndoIo.cfg")
     consts = dict(MC_SIM); consts.update(DEVS)
     T.write_cfg(cfg2, spec="Spec", constants=consts, invariants=INVS)
-    n = 60 if tier == "quick" else 3000            # per worker
+    n = 60 if tier == "quick" else 1200            # per worker
     r = T.tlc(os.path.join(SPEC, "UndoIo.tla"), cfg2, workers=4, timeout=200 if tier == "quick" else 2400, xmx="4g",
               simulate=n, depth=60)
     import re
@@ -514,8 +514,8 @@ def api_nontrivial(lines):
 
 
 def api_conformance(ev, vd, tier, work, b, drv, rng):
-    nbeh = 300 if tier == "quick" else 12000
-    nbig = 6 if tier == "quick" else 120
+    nbeh = 300 if tier == "quick" else 4000
+    nbig = 6 if tier == "quick" else 40
     behs = directed_api() + [gen_api(rng) for _ in range(nbeh)] + [gen_api(rng, big=True) for _ in range(nbig)]
     ndirected = len(directed_api())
     shards = JOBS
